@@ -400,14 +400,23 @@ def _messaging(which):
         def recv(E_, f, a, k):
             hl = a[2] if len(a) > 2 else k.get('header_length', 3)
             n = E_.path.choice(3, 'frames-in-message')        # a message holds 0 (ignored/invalid-free), 1 or - malformed peers - more
-            out = [SOpaque('frame', 'frame(%d,%d)' % (len(fed), i)) for i in range(n)]
+            # what the parser yields are real objects: frames, or the InvalidFrame marker of an undecodable message (which has to
+            # reach the receiver like everything else: the parser finishes with the message only when its generator is resumed)
+            out = []
+            for i in range(n):
+                if len(fed) == 1 and i == 0 and E_.path.choice(2, 'second-message-is-undecodable') == 1:
+                    out.append(E_.call(E_.lookup('rsocket/frame.py::InvalidFrame'), []))
+                else:
+                    fr_ = E_.call(E_.lookup('rsocket/frame.py::PayloadFrame'), [])
+                    fr_.attrs['label'] = 'frame(%d,%d)' % (len(fed), i)
+                    out.append(fr_)
             fed.append((a[1], hl))
             frames_out.extend(out)
             return list(out)
         E.stubs[RECV] = recv
         BIN = SOpaque('wsmsgtype', 'BINARY')
         TXT = SOpaque('wsmsgtype', 'TEXT')
-        datas = [SOpaque('bytes', 'message%d' % i) for i in range(3)]
+        datas = [E.fresh_bytes('message%d' % i) for i in range(3)]
         sent = []
         E.suspend_hook = lambda E_, what: None
         if which == 'quart':
